@@ -251,10 +251,10 @@ def run_impl(impl, sc, gone=()):
                            stdout=subprocess.DEVNULL, stderr=subprocess.DEVNULL, timeout=300)
         files, defects = [], []
         for k, c in enumerate(sink_letters(sc)):
-            if c == 'B':
-                files.append('X'); continue
             if k in gone:      # removed from the logger before the end: not one of its file sinks any more
                 files.append('G'); continue
+            if c == 'B':
+                files.append('X'); continue
             ids, df = read_sink(d, k, sc)
             files.append(ranges(ids)); defects += ['s%d: %s' % (k, x) for x in df]
         return {'rc': p.returncode, 'files': ';'.join(files), 'defects': defects[:5]}
